@@ -66,11 +66,15 @@ pub fn file(p: &PDB) -> Sx {
     l(v)
 }
 pub fn diags(errs: &[PDBError]) -> Sx {
+    diags_lines(errs, true)
+}
+/// diagnostics as sorted (level, short description, line) triples; the mmCIF model carries no line numbers
+pub fn diags_lines(errs: &[PDBError], with_lines: bool) -> Sx {
     let mut ds: Vec<(i128, Vec<u8>, i128)> = errs
         .iter()
         .map(|e| {
             let line = match e.context() {
-                Context::Line { linenumber, .. } | Context::FullLine { linenumber, .. } => *linenumber as i128,
+                Context::Line { linenumber, .. } | Context::FullLine { linenumber, .. } if with_lines => *linenumber as i128,
                 _ => 0,
             };
             (line, e.short_description().as_bytes().to_vec(), snap::level(e.level()))
@@ -80,9 +84,13 @@ pub fn diags(errs: &[PDBError]) -> Sx {
     l(ds.into_iter().map(|(ln, sh, lv)| l(vec![z(lv), Sx::S(sh), z(ln)])).collect())
 }
 pub fn read_obs(text: &[u8], opts: usize, level: usize) -> (Sx, Option<PDB>) {
+    read_obs_format(text, Format::Pdb, opts, level)
+}
+pub fn read_obs_format(text: &[u8], format: Format, opts: usize, level: usize) -> (Sx, Option<PDB>) {
+    let with_lines = matches!(format, Format::Pdb);
     let r = crate::guarded(|| {
         ReadOptions::default()
-            .set_format(Format::Pdb)
+            .set_format(format)
             .set_level(snap::strictness(level))
             .set_discard_hydrogens(opts & 1 != 0)
             .set_only_first_model(opts & 2 != 0)
@@ -91,8 +99,8 @@ pub fn read_obs(text: &[u8], opts: usize, level: usize) -> (Sx, Option<PDB>) {
     });
     match r {
         None => (y("panic"), None),
-        Some(Ok((p, e))) => (l(vec![y("ok"), file(&p), diags(&e)]), Some(p)),
-        Some(Err(e)) => (l(vec![y("err"), diags(&e)]), None),
+        Some(Ok((p, e))) => (l(vec![y("ok"), file(&p), diags_lines(&e, with_lines)]), Some(p)),
+        Some(Err(e)) => (l(vec![y("err"), diags_lines(&e, with_lines)]), None),
     }
 }
 
